@@ -120,7 +120,7 @@ func C06(e *Env) {
 		reqs       []wire.Req
 	}
 	var list []sess
-	nTrees := e.Pick(150, 2500)
+	nTrees := e.Pick(150, 6000)
 	var mu sync.Mutex
 	entriesListed := 0
 	for t := 0; t < nTrees; t++ {
@@ -240,11 +240,7 @@ func C06(e *Env) {
 			if res.Oracle != nil {
 				wit["trace"] = tailStr(res.Oracle.Trace, 30)
 			}
-			if res.Fail.Inconclusive {
-				run.Inconclusive(res.Fail.Error())
-			} else {
-				run.Violate(res.Fail.Rule, res.Fail.Feature, res.Fail.Detail, wit)
-			}
+			judgeModelFail(e, res.Fail, s.reqs, res.FailAt, "", res.Fail.Feature, res.Fail.Detail, wit)
 			return
 		}
 		mu.Lock()
